@@ -459,7 +459,9 @@ func Check(opt Options, writeBaseline bool) int {
 	if len(v.Violations) > 0 && !writeBaseline {
 		retry := false
 		for _, vi := range v.Violations {
-			if vi.Obl != nil && vi.Obl.Detail != "sat" && vi.Obl.Kind != "canary" {
+			if vi.Obl != nil && (vi.Obl.Detail != "sat" || vi.Obl.Weak) && vi.Obl.Kind != "canary" {
+				// (a ground-stage model of an instantiated query is no counterexample of the quantified one: try again with
+				// a longer quantified stage before anything is reported)
 				retry = true
 			}
 		}
